@@ -21,9 +21,11 @@ SHARDS = 16
 
 
 class NewCoverage:
-    def __init__(self):
+    def __init__(self, branches=True):
+        self.branches = branches
         self.new = 0
         self.br = {}
+        self.lines = set()
         self.files = {}
 
     def _ours(self, code):
@@ -34,24 +36,30 @@ class NewCoverage:
         return r
 
     def line_cb(self, code, line):
+        # keyed by (file, line), not by code object: the application re-imports its plugin modules on every run, which
+        # creates fresh code objects for the same source
         if self._ours(code):
-            self.new += 1
+            key = (code.co_filename, line)
+            if key not in self.lines:
+                self.lines.add(key)
+                self.new += 1
         return sys.monitoring.DISABLE
 
     def branch_cb(self, code, src, dst):
         if not self._ours(code):
             return sys.monitoring.DISABLE
-        key = (code, src)
+        key = (code.co_filename, code.co_firstlineno, src)
         d = self.br.get(key)
         if d is None:
             self.br[key] = dst
             self.new += 1
             return None
-        if d != dst:
+        if d == dst:
+            return None
+        if d != "both":
+            self.br[key] = "both"
             self.new += 1
-            self.br[key] = dst  # (only reached once: the location is disabled now that both directions were seen)
-            return sys.monitoring.DISABLE
-        return None
+        return sys.monitoring.DISABLE
 
     def start(self):
         mon = sys.monitoring
@@ -60,10 +68,12 @@ class NewCoverage:
         except ValueError:
             pass
         mon.register_callback(TOOL, mon.events.LINE, self.line_cb)
-        mon.register_callback(TOOL, mon.events.BRANCH, self.branch_cb)
-        mon.set_events(TOOL, mon.events.LINE | mon.events.BRANCH)
+        if self.branches:
+            mon.register_callback(TOOL, mon.events.BRANCH, self.branch_cb)
+        mon.set_events(TOOL, mon.events.LINE | (mon.events.BRANCH if self.branches else 0))
         mon.restart_events()
         self.br.clear()
+        self.lines.clear()
         self.new = 0
 
     def stop(self):
@@ -92,12 +102,16 @@ def exercise(mode, src):
             pass
 
 
+BIG = 400000  # universes larger than this are streamed with LINE events only in pass 1 (near-native speed); the kept
+#               documents of every universe go through passes 2 and 3 with branch directions as well
+
+
 def shard(payload):
     mode, uname, lo, hi = payload
     from vp import engine
 
     u = engine.get_universe(uname)
-    nc = NewCoverage()
+    nc = NewCoverage(branches=u.size <= BIG)
     # warm-up outside measurement so that import-time and first-call lines are not attributed to the first document
     exercise(mode, "warm *up* [l](u)\n\n- a\n\n> b\n")
     nc.start()
@@ -145,27 +159,38 @@ def main():
 
     if len(sys.argv) > 2:
         names = sys.argv[2].split(",")
+    elif mode == "scan":
+        import importlib
+
+        names = []
+        for m in ("c07", "c06", "c08", "c09", "c10", "c11", "c12", "c16"):
+            for un in importlib.import_module(f"vp.props.{m}").PLAN:
+                if un not in names and engine.get_universe(un).size <= 100000:
+                    names.append(un)
     else:
         names = universes.ALL
     out_path = os.path.join(os.path.dirname(os.path.dirname(os.path.abspath(__file__))), "corpus", f"distilled_{mode}.json")
-    result = json.load(open(out_path)) if os.path.exists(out_path) else {}
+    stage_path = out_path + ".stage"
+    stage = json.load(open(stage_path)) if os.path.exists(stage_path) else {}
     t0 = time.time()
-    jobs = []
-    for un in names:
+    # passes 1 and 2, one universe at a time (smallest first); intermediate results are kept so the run can be resumed
+    for un in sorted(names, key=lambda n: engine.get_universe(n).size):
+        key = un + "@" + engine.get_universe(un).checksum()
+        if key in stage:
+            continue
         n = engine.get_universe(un).size
         step = max(1, (n + SHARDS - 1) // SHARDS)
-        jobs += [(mode, un, lo, min(lo + step, n)) for lo in range(0, n, step)]
-    pass1 = {}
-    for un, lo, kept in pool.run_jobs("tools.distill:shard", jobs, stall_s=7200):
-        pass1.setdefault(un, []).extend(kept)
-    print("pass 1:", {k: len(v) for k, v in pass1.items()}, f"{time.time() - t0:.0f}s", flush=True)
-    # pass 2: per universe (parallel), fresh state, rank order
-    pass2 = {}
-    for un, kept in pool.run_jobs("tools.distill:replay_subset", [(mode, un, sorted(pass1.get(un, []))) for un in names], stall_s=7200):
-        pass2[un] = kept
-    print("pass 2:", {k: len(v) for k, v in pass2.items()}, f"{time.time() - t0:.0f}s", flush=True)
-    pass1 = pass2
-    # pass 3: one process, fixed order over all universes
+        jobs = [(mode, un, lo, min(lo + step, n)) for lo in range(0, n, step)]
+        p1 = []
+        for _, lo, kept in pool.run_jobs("tools.distill:shard", jobs, stall_s=14400):
+            p1.extend(kept)
+        _, p2 = replay_subset((mode, un, sorted(p1))) if len(p1) < 3000 else next(iter(pool.run_jobs("tools.distill:replay_subset", [(mode, un, sorted(p1))], stall_s=14400)))
+        stage[key] = p2
+        with open(stage_path, "w") as f:
+            json.dump(stage, f, separators=(",", ":"))
+        print(f"{un}: size={n} pass1={len(p1)} pass2={len(p2)} {time.time() - t0:.0f}s", flush=True)
+    # pass 3: one process, fixed order over all universes (with branch directions)
+    result = json.load(open(out_path)) if os.path.exists(out_path) else {}
     nc = NewCoverage()
     exercise(mode, "warm *up* [l](u)\n\n- a\n\n> b\n")
     nc.start()
@@ -173,7 +198,7 @@ def main():
         for un in names:
             u = engine.get_universe(un)
             keep = []
-            for r in sorted(pass1.get(un, [])):
+            for r in stage.get(un + "@" + u.checksum(), []):
                 before = nc.new
                 try:
                     exercise(mode, u.doc(r))
